@@ -58,6 +58,8 @@ def cases(tier, seed):
         yield {"kind": "resolve_history", "idx": i, "seed": seed}
     for i in range(40 if tier == "quick" else 600):  # clusters listed under a name other than their own, all source forms
         yield {"kind": "listed", "idx": i, "seed": seed}
+    for i in range(12 if tier == "quick" else 200):  # an explicit clusters= argument over a configuration that lists clusters
+        yield {"kind": "repo_args", "idx": i, "seed": seed}
     for i in range(256):  # which options the configuration has x which options are given explicitly
         yield {"kind": "override", "idx": i, "seed": seed, "cfg_mask": i >> 4, "arg_mask": i & 15}
         if i & 15:  # ... and the same with explicit values that switch the option off
@@ -615,6 +617,43 @@ def run_override(case, out, fail, sc):
     out["sample"] = {"config": cfg, "explicit": chosen}
 
 
+def run_repo_args(case, out, fail, sc):
+    """An explicit clusters= argument of a repository replaces the clusters its configuration lists (inline or as files):
+    names the argument does not give resolve to nothing, names it gives resolve to the argument's cluster - in the live
+    environment and in the one rebuilt from its dump."""
+    import twosigma.memento as m
+
+    rng = core.rng_for(case["seed"], ID, "repo_args", case["idx"])
+    names = ["alpha", "beta", "gamma"]
+    cfgdir = sc.path("files")
+    os.makedirs(cfgdir, exist_ok=True)
+    listed = {}
+    for n in names:
+        ccfg = {"name": n, "storage": {"type": "filesystem", "path": sc.path("cfg_" + n)}}
+        if rng.random() < 0.5:  # (some clusters are listed as files)
+            with open(os.path.join(cfgdir, n + ".json"), "w") as f:
+                json.dump(ccfg, f)
+            listed[n] = n + ".json"
+        else:
+            listed[n] = ccfg
+    given = {n: m.FunctionCluster(config={"name": n, "storage": {"type": "filesystem", "path": sc.path("arg_" + n)}})
+             for n in rng.sample(names, rng.randint(1, 2))}
+    repo = m.ConfigurationRepository(config={"name": "r", "base_dir": cfgdir, "clusters": listed}, clusters=given)
+    e1 = m.Environment(name="e", repos=[repo])
+    e2 = m.Environment(json.loads(json.dumps(e1.to_dict())))
+    out["obs"]["repositories_with_an_explicit_clusters_argument"] += 1
+    for which, e in (("the environment", e1), ("the environment rebuilt from its dump", e2)):
+        for n in names:
+            cl = e.get_cluster(n)
+            got = None if cl is None else os.path.basename(str(cl.storage.to_dict().get("path")))
+            want = ("arg_" + n) if n in given else None
+            out["obs"]["names_resolved"] += 1
+            if got != want:
+                fail("an explicit argument does not override the configuration (clusters of a repository)",
+                     "repository listing %s with clusters=%s: in %s name %r resolves to %s, expected %s"
+                     % (sorted(listed), sorted(given), which, n, got, want))
+
+
 def run_case(case):
     out = {"viol": [], "nontrivial": [], "obs": collections.Counter()}
 
@@ -633,6 +672,8 @@ def run_case(case):
             run_shared_dict(case, out, fail, sc)
         elif case["kind"] == "listed":
             run_listed(case, out, fail, sc)
+        elif case["kind"] == "repo_args":
+            run_repo_args(case, out, fail, sc)
         elif case["kind"] == "resolve_history":
             run_resolve_history(case, out, fail, sc)
         else:
